@@ -8,6 +8,7 @@ import (
 	"math"
 	"strconv"
 	"strings"
+	"unicode/utf8"
 )
 
 var NaN float64
@@ -454,7 +455,8 @@ getAnother:
 		}
 		return &SexpInt{Val: i}, nil
 	case TokenChar:
-		return &SexpChar{Val: rune(tok.str[0])}, nil
+		r, _ := utf8.DecodeRuneInString(tok.str)
+		return &SexpChar{Val: r}, nil
 	case TokenString:
 		return &SexpStr{S: tok.str}, nil
 	case TokenBeginBacktickString:
